@@ -145,7 +145,9 @@ def tlc_trace(spec_tla, cfg, trace_file, tag=None, timeout=1200):
                             "info": " ".join(inv.group(3).split())[:300]}
     if rc == 124:
         res["error"] = "timeout"
-    elif rej is None and inv is None and (rc != 0 or res["states"] != nlines + 1):
+    # acceptance is decided by the POSTCONDITION (a behaviour that consumed every line exists); fewer
+    # states than lines without a rejection message means TLC itself failed
+    elif rej is None and inv is None and (rc != 0 or res["states"] < nlines + 1):
         errs = [l for l in out.splitlines() if l.startswith("Error:") or "Exception" in l]
         res["error"] = "; ".join(errs[:4]) or f"rc={rc} states={res['states']} lines={nlines}"
         res["tail"] = "\n".join(l for l in out.splitlines() if not TLC_NOISE.match(l))[-2500:]
